@@ -134,7 +134,11 @@ META = dict(
                 "of the oracles, HandleInput's model returns ok/error OR is `inject` still evaluating its expression (third disjunct "
                 "of handle_never_panics; proved to occur only when the oracle says the expression does not return); no panic primitive "
                 "fails, ed.lock is not taken twice, it is free after the command and while the expression is evaluated, a following "
-                "`status` answers. Guard necessity by witnesses. Tied to the code by regenerated facts (command words, evaluated "
+                "`status` answers. Concurrent clients: `inject` (the one command with two lock sections) linearises — whatever command "
+                "lines of other clients are answered between its sections, reply and state are those of an atomic inject issued before "
+                "(thread not suspended at the first look) or after all of them (inject_linearises, _among_commands); a pending inject has "
+                "changed nothing, blocks nobody and can always complete (pending_inject_*, inject_completion_enabled). Atomicity of the "
+                "single-section commands is the lock fact's reading, an assumption. Guard necessity by witnesses. Tied to the code by regenerated facts (command words, evaluated "
                 "argument-count tests, words HandleInput compares with, lock discipline of every function of debug.go for ed.lock, "
                 "is.cond.L, ed.mutexesMutex) and a reply-class differential over scenarios x command lines, incl. concurrent kinds."),
     level_note=("Trusted: Lean kernel + propext/Classical.choice/Quot.sound; the correspondence harness; JSON-encodability of the "
